@@ -100,6 +100,10 @@ def events_for(darsia, rng, shape, table, h, omode, kind, halo, tid, sample_sing
 def run(ck, replay=None):
     ck.sany("MC_Coords", "Trace_Coords")
     r = ck.model_check("MC_Coords", f"MC_Coords_{ck.tier}.cfg", workers=4 if ck.tier == "quick" else 8)
+    if ck.tier == "thorough":
+        # floor lemma for ALL integer voxel indices (Apalache, integer SMT); truncation toward zero must be refuted
+        if ck.apalache("CoordsLemma", "Lemma"):
+            ck.apalache("CoordsLemma", "TruncRoundTrip", expect_error=True)
     scn = {tuple(p[1]): [tuple(t) for t in p[2]] for p in r.printed("SCN")}
     tables = {len(s): t for s, t in scn.items()}
     if set(tables) != {1, 2, 3}:
